@@ -185,7 +185,7 @@ VSS_GHOSTS = (GHOSTS + 'unsigned vp_mode, vp_plen, vp_dlen;\n'
               ' * model cannot read back a pointer stored into the untyped bytes that is_fresh allocates */\n'
               '#ifdef VP_TYPED_VAL\nVssData_t vp_val_obj;\n#define VP_VAL_FRESH(val) ((val) == &vp_val_obj)\n#else\n#define VP_VAL_FRESH(val) __CPROVER_is_fresh(val, sizeof(VssData_t))\n#endif\n'
               '/* bounded FALLBACK build only (-DVP_FB_ELEMS=n): values of at most n elements */\n'
-              '#if defined(VP_FB_ELEMS)\n#define VP_FB_REQ(w) (vp_dlen <= VP_FB_ELEMS * (w) && vp_plen <= 16u)\n#elif defined(VP_FB_TOP)\n#define VP_FB_REQ(w) (vp_dlen + 2u * (w) > 65535u && vp_plen <= 16u)\n#else\n#define VP_FB_REQ(w) 1\n#endif\n')
+              '#if defined(VP_FB_ELEMS)\n#define VP_FB_REQ(w) (vp_dlen <= VP_FB_ELEMS * (w) && vp_plen <= 16u)\n#elif defined(VP_FB_TOP)\n#define VP_FB_REQ(w) (vp_dlen + 2u * (w) > 65535u && vp_plen <= 16u)\n#elif defined(VP_SIZE_CAP)\n#define VP_FB_REQ(w) (vp_dlen <= VP_SIZE_CAP && vp_plen <= 64u)\n#else\n#define VP_FB_REQ(w) 1\n#endif\n')
 VSS_HAVOC = HAVOC_GHOSTS + '    vp_mode = nondet_uint(); vp_plen = nondet_uint(); vp_dlen = nondet_uint();\n'
 
 
@@ -234,7 +234,9 @@ def vss_jobs(model, tier, config='le'):
                         function=enf.split('/')[0], kind='vss-path', config=config, timeout=900))
     # ---- per datatype
     if tier == 'quick':
-        codes = [0x00, 0x03, 0x06, 0x09, 0x0A, 0x0B, 0x82, 0x85, 0x89, 0x8B, 0x0C]
+        # every scalar code, the string, one array of each element width and kind (1-byte, 16-bit, 32-bit integer, float), the
+        # bool array, the string array and one reserved code; the 8-byte arrays and the remaining signed/unsigned twins are thorough-only
+        codes = sorted(SCALARS) + [0x0B, 0x80, 0x82, 0x83, 0x85, 0x88, 0x89, 0x8B, 0x0C]
     else:
         codes = sorted(SCALARS) + sorted(POINTERS) + RESERVED
     for K in codes:
@@ -273,9 +275,28 @@ def vss_jobs(model, tier, config='le'):
                                  clause_map=cm, function=fn, kind='vss-' + side + '-fallback', config=config, timeout=900, obj_bits=10,
                                  extra_cc=['-DVP_FB_TOP'], unwind={'*repo*': 3}, assumptions=assume, canary=False,
                                  bounded='BOUNDARY PROBE of the bounded fallback: the last two element counts below 65536 bytes, loops unwound 3 times')]
+            # The 8-byte array ENCODERS do not finish with their loop contract (each of ~50 property chunks takes minutes; an hour was
+            # not enough, also with the value size capped at 2048 bytes).  They are registered as BOUNDED obligations instead: values
+            # of at most 4 elements with the loops unwound, plus a probe at the top of the 16-bit length range.  Their decoders and all
+            # narrower element widths keep the unbounded loop-contract proofs.
+            if side == 'set' and K in POINTERS and POINTERS[K][3] == 8:
+                FB = 4
+                jobs.append(Job('%s/%s' % (fn, lab), tu.text(), srcs, enforce=fn, replace=repl,
+                                owners={'post': [pid], 'safety': [pid], 'assigns': [pid, 'C16'], 'loop': [pid], 'unwind': [pid]},
+                                clause_map=cm, function=fn, kind='vss-' + side, config=config, timeout=1800, obj_bits=10,
+                                extra_cc=['-DVP_FB_ELEMS=%du' % FB] + (['-DVP_TYPED_VAL'] if config == 'be' else []), unwind={'*repo*': FB + 2}, assumptions=assume,
+                                bounded='BOUNDED (the loop-contract proof of the 8-byte array encoders does not finish): values of at most %d elements, interop paths of '
+                                        'at most 16 bytes, loops unwound %d times with unwinding assertions' % (FB, FB + 2)))
+                jobs.append(Job('%s/%s/top-of-range-probe' % (fn, lab), tu.text(), srcs, enforce=fn, replace=repl,
+                                owners={'post': [pid], 'safety': [pid], 'assigns': [pid, 'C16'], 'loop': [pid], 'unwind': [pid]},
+                                clause_map=cm, function=fn, kind='vss-' + side, config=config, timeout=900, obj_bits=10,
+                                extra_cc=['-DVP_FB_TOP'] + (['-DVP_TYPED_VAL'] if config == 'be' else []), unwind={'*repo*': 3}, assumptions=assume, canary=False, ignore_unwind=True,
+                                bounded='BOUNDARY PROBE: the last element counts below 65536 bytes with the loops unwound 3 times; only a real failure counts, '
+                                        'reaching the unwinding bound gives no information'))
+                continue
             jobs.append(Job('%s/%s' % (fn, lab), tu.text(), srcs, enforce=fn, replace=repl,
                             loop_contracts=lc, owners={'post': [pid], 'safety': [pid], 'assigns': [pid, 'C16'], 'loop': [pid]},
                             clause_map=cm, function=fn, kind='vss-' + side, config=config, timeout=2400, obj_bits=10,
-                            chunk=(40 if (side == 'set' and K in POINTERS and POINTERS[K][3] > 1) else None), chunk_par=4,
+                            chunk=(40 if (side == 'set' and K in POINTERS and POINTERS[K][3] > 1) else None), chunk_par=3,
                             assumptions=assume, fallback=fb, extra_cc=(['-DVP_TYPED_VAL'] if config == 'be' else [])))
     return jobs
